@@ -42,12 +42,12 @@ TYPES = [
 BY_SIG = {}
 for _t in TYPES:
     BY_SIG.setdefault(_t[1:], []).append(_t[0])
-VARIANTS = ["short_as_int", "u8_signed", "bool_truthy", "no_stride"]
+VARIANTS = ["short_as_int", "u8_signed", "bool_truthy", "no_stride", "pair_past_end", "char32_unchecked"]
 
 
 def unpack_cfg(maxn, big, variant="faithful"):
     return ("SPECIFICATION Spec\nCONSTANTS MaxN = %d\n  Big = %s\n  Variant = \"%s\"\n"
-            "INVARIANT FastEqualsGeneric\nINVARIANT ConvertIsElem\nCHECK_DEADLOCK FALSE\n"
+            "INVARIANT FastEqualsGeneric\nINVARIANT UnitsExact\nINVARIANT ConvertIsElem\nCHECK_DEADLOCK FALSE\n"
             % (maxn, "TRUE" if big else "FALSE", variant))
 
 
@@ -139,13 +139,16 @@ _store = {}
 
 
 def execute(f, ct, cls, sz, al, mis, n, mem, how="ptr"):
-    """Put `mem` at an address = mis (mod 16), run both sides, return the record."""
+    """Put `mem` at an address = mis (mod 16), run both sides on its first n items, return the record.
+    `mem` may be longer than n items: what follows the range is real memory too and must not matter."""
     need = len(mem) + 48
     big = f.new("char[]", need)
     addr0 = int(f.cast("uintptr_t", big))
     off = (-addr0) % 16 + mis
     f.buffer(big)[off:off + len(mem)] = bytes(mem)
     base = addr0 + off
+    if how == "array" and len(mem) != n * sz:
+        how = "ptr"
     if how == "array":        # a real array cdata (only when the start is where ffi.new puts it)
         arr = f.new(f.getctype(ct, "[%d]" % n) if "*" in ct else "%s[%d]" % (ct, n))
         f.buffer(arr)[:] = bytes(mem)
@@ -218,7 +221,12 @@ def validate(ctx, recs):
 
 
 def content_class(rec):
-    cls, sz, mem = rec["cls"], rec["sz"], bytes(rec["mem"])
+    cls, sz, mem = rec["cls"], rec["sz"], bytes(rec["mem"])[:rec["n"] * rec["sz"]]
+    if cls == "char" and sz == 2 and rec["n"] > 0 and len(rec["mem"]) >= (rec["n"] + 1) * 2:
+        last = int.from_bytes(mem[-2:], "little")
+        nxt = int.from_bytes(bytes(rec["mem"])[rec["n"] * 2:rec["n"] * 2 + 2], "little")
+        if 0xD800 <= last <= 0xDBFF and 0xDC00 <= nxt <= 0xDFFF:
+            return "high-surrogate-at-end-low-after"
     if cls == "char" and sz == 2:
         cu = [int.from_bytes(mem[i:i + 2], "little") for i in range(0, len(mem), 2)]
         if any(0xD800 <= a <= 0xDBFF and 0xDC00 <= b <= 0xDFFF for a, b in zip(cu, cu[1:])):
@@ -234,10 +242,12 @@ def judge(ctx, recs, bad):
     notes = []
     for k, verdict, case in bad:
         r = recs[k]
-        if verdict == "differs":
+        if verdict in ("differs", "units"):
             key = "unpack:%s:%s:%s:case%d" % (r["ct"], "aligned" if r["mis"] % r["al"] == 0 else "misaligned",
                                              content_class(r), case)
-            ctx.violation(key, "ffi.unpack(p, n) differs from [p[i] for i in range(n)]", {"record": r})
+            what = ("ffi.unpack(p, n) differs from [p[i] for i in range(n)]" if verdict == "differs" else
+                    "ffi.unpack(p, n) over 2-byte characters does not encode exactly the items 0..n-1")
+            ctx.violation(key, what, {"record": r})
         else:
             notes.append({"ct": r["ct"], "mis": r["mis"], "mem": r["mem"], "l": r["l"]})
     if notes:
@@ -257,17 +267,16 @@ def submit_design(ctx, jobs):
     for name, cfg in design_runs(ctx):
         jobs.submit(name, "Unpack", cfg_text=cfg, workers=4, timeout=3000)
     for v in VARIANTS:
-        jobs.submit("sanity:" + v, "Unpack", cfg_text=unpack_cfg(2, False, v), workers=2, timeout=1200)
-    # the known char32_t defect is visible at design level: without the exemption TLC must report it
-    jobs.submit("known-defect:char32", "Unpack", cfg_text=unpack_cfg(2, False).replace(
-        "INVARIANT FastEqualsGeneric", "INVARIANT FastEqualsGenericStrict"), workers=2, timeout=1200)
+        # pair_past_end needs a complete pair inside the range plus a high surrogate at n-1: 3 items
+        jobs.submit("sanity:" + v, "Unpack", cfg_text=unpack_cfg(3 if v == "pair_past_end" else 2, False, v),
+                    workers=2, timeout=1200)
 
 
 def collect_design(ctx, jobs):
     for name, _cfg in design_runs(ctx):
         ctx.add_tlc(name, jobs.result(name))
-    for v in VARIANTS + ["known-defect:char32"]:
-        name = v if v.startswith("known") else "sanity:" + v
+    for v in VARIANTS:
+        name = "sanity:" + v
         r = jobs.result(name)
         ctx.add_tlc(name, r, require_ok=False, count_states=False)
         if r.ok or "is violated" not in r.out:
@@ -292,7 +301,7 @@ def spec_to_code(ctx, jobs, f, recs, divergences):
         t = st["ty"]
         names = BY_SIG[(t["cls"], t["sz"], t["al"])]
         ct = names[idx % len(names)]
-        rec = execute(f, ct, t["cls"], t["sz"], t["al"], st["mis"] + 8 * (idx % 2), st["cnt"], bytes(st["mem"]))
+        rec = execute(f, ct, t["cls"], t["sz"], t["al"], st["mis"] + 8 * (idx % 2), st["cnt"], bytes(st["mem"]))  # mem may exceed cnt items
         recs.append(rec)
         ctx.case()
         want = norm_model(st["out"])
@@ -314,6 +323,17 @@ def code_to_spec(ctx, f, recs):
         n = rng.randint(0, 9) if r < 0.9 else rng.choice([16, 33, 100, 257])
         mem = b"".join(gen_item(rng, cls, sz) for _ in range(n))
         how = "array" if rng.random() < 0.15 and n > 0 else "ptr"
+        if cls == "char" and sz == 2 and n >= 3 and rng.random() < 0.5:
+            # pairs inside the range, a high surrogate as the last item, a low surrogate right after the range
+            units = [rng.choice([0x41, 0xD800 + rng.getrandbits(10), 0xDC00 + rng.getrandbits(10), rng.getrandbits(16)])
+                     for _ in range(n)]
+            q = rng.randrange(n - 2)
+            units[q], units[q + 1] = 0xD800 + rng.getrandbits(10), 0xDC00 + rng.getrandbits(10)
+            units[n - 1] = 0xD800 + rng.getrandbits(10)
+            units.append(0xDC00 + rng.getrandbits(10))
+            mem, how = b"".join(u.to_bytes(2, "little") for u in units), "ptr"
+        elif how == "ptr" and rng.random() < 0.3:
+            mem += b"".join(gen_item(rng, cls, sz) for _ in range(rng.randint(1, 2)))     # memory after the range
         rec = execute(f, ct, cls, sz, al, mis, n, mem, how)
         recs.append(rec)
         ctx.case((ct, rec["mis"] % al == 0, content_class(rec), min(n, 3)))
